@@ -56,4 +56,17 @@ theorem sumInts_nonneg (l : List Int) (h : ∀ x ∈ l, 0 ≤ x) : 0 ≤ sumInts
     have := ih (fun y hy => h y (by simp [hy]))
     omega
 
+theorem splitCapped_sum (total debt : Int) (l : List Int) (rem : Int) (h : l ≠ []) :
+    sumInts (splitCapped total debt l rem) = rem := by
+  induction l generalizing rem with
+  | nil => exact absurd rfl h
+  | cons d rest ih =>
+    cases rest with
+    | nil => simp [splitCapped, sumInts]
+    | cons d2 r2 =>
+      unfold splitCapped
+      simp only
+      rw [sumInts_cons, ih _ (by simp)]
+      omega
+
 end KV.Safe
